@@ -1448,6 +1448,10 @@ class FlowIR(object):
 
             return cls._default_cpuUnitsPerCore
 
+    # VV: Regular expression fragments that anchor a reference string inside free text (see compile_component_*)
+    ReferenceNotPrecededBy = r"(?<![\w./#-])"
+    ReferenceNotFollowedBy = r"(?![a-zA-Z])"
+
     @classmethod
     def compile_component_aggregate(cls, component, count, refs_to_replicate):
         # type: (DictFlowIRComponent, int, List[str]) -> DictFlowIRComponent
@@ -1467,7 +1471,12 @@ class FlowIR(object):
                 original_long = FlowIR.compile_reference(producer, filename, method, stage_index)
                 original_short = FlowIR.compile_reference(producer, filename, method)
 
-                for ref_str in [original_long, original_short]:
+                # VV: The RELATIVE spelling can only point to a producer in the stage of this component
+                spellings = [original_long]
+                if comp_stage is None or stage_index == comp_stage:
+                    spellings.append(original_short)
+
+                for ref_str in spellings:
                     if ref_str not in translation_map:
                         translation_map[ref_str] = []
 
@@ -1481,37 +1490,35 @@ class FlowIR(object):
                 # e.g. Component:ref/file.txt -> Component1:ref/file.txt Component2:ref/file.txt etc
                 update_refs = [ref]
                 stage_index, producer, filename, method = cls.ParseDataReferenceFull(ref, None)
-                if stage_index is not None:
-                    # VV: We want to add the ABSOLUTE reference second so that we do not end up with:
-                    # stage<idx>.stage<idx>.<component name>
+                if stage_index is not None and (comp_stage is None or stage_index == comp_stage):
+                    # VV: The RELATIVE spelling can only point to a producer in the stage of this component
                     extra_ref = cls.compile_reference(
                         producer=producer, filename=filename, method=method)
                     update_refs.append(extra_ref)
                 for ref in update_refs:
-                    expression = re.compile(r"%s((?:/[\w.*]+)+,*)?" % ref)
-                    orig_string = string
-                    m = expression.search(string)
-                    if m is not None:
+                    # VV: Only match whole references: the text must not be the tail of a longer producer name
+                    # (e.g. `A:ref` inside `BA:ref` or inside the absolute spelling `stage0.A:ref`) nor the head of a
+                    # longer method (`:copy` inside `:copyout`)
+                    expression = re.compile(r"%s%s%s((?:/[\w.*]+)+,*)?" % (
+                        cls.ReferenceNotPrecededBy, re.escape(ref), cls.ReferenceNotFollowedBy))
+
+                    def replace_one(m, ref=ref):
+                        path = m.group(1)
                         # Check if we have a path after the reference
-                        if m.group(1) is not None:
-                            path = m.group(1)
-                            # Now check if there is a comma at end of path - if there is join using a comma
-                            separator = " "
-    
-                            # VV: FIXME What if someone uses this hack in the `references` field ?
-                            if path[-1] == ",":
-                                separator = ","
-                                path = path[:-1]
-    
-                            replacement = ["%s%s" % (el, path) for el in translation_map[ref]]
-                            replacement = separator.join(replacement)
-                            string = expression.sub(replacement, string)
-                        else:
-                            string = string.replace(ref, " ".join(translation_map[ref]))
-                        if string != orig_string:
-                            # VV: if we replaced the Absolute ref we must skip replacing the relative ref becuase
-                            # we'll end up with stage<idx>.stage<idx>.<component name>
-                            break
+                        if path is None:
+                            return " ".join(translation_map[ref])
+
+                        # Now check if there is a comma at end of path - if there is join using a comma
+                        separator = " "
+
+                        # VV: FIXME What if someone uses this hack in the `references` field ?
+                        if path[-1] == ",":
+                            separator = ","
+                            path = path[:-1]
+
+                        return separator.join(["%s%s" % (el, path) for el in translation_map[ref]])
+
+                    string = expression.sub(replace_one, string)
 
             return string
 
@@ -1562,19 +1569,30 @@ class FlowIR(object):
             original_short = FlowIR.compile_reference(producer, filename, method)
 
             translation[original_long] = rewritten
-            translation[original_short] = rewritten
+            if stage_index == owner_stage:
+                # VV: The RELATIVE spelling can only point to a producer in the stage of this component
+                translation[original_short] = rewritten
 
         # VV: Ensure that references are replaced from the longest one to the shortest one so that
         #     there is no way that a partial reference is replaced. This is probably overkill;
         #     references end with the `method` postfix (e.g. ':ref').
         sorted_translation = sorted(translation, key=lambda name: len(name), reverse=True)
 
+        # VV: Replace all references in one pass and only match whole references: the text must not be the tail of
+        #     a longer producer name (e.g. `A:ref` inside `BA:ref`) nor the head of a longer method (`:copy` inside
+        #     `:copyout`)
+        if sorted_translation:
+            expression = re.compile(r"%s(%s)%s" % (
+                cls.ReferenceNotPrecededBy, '|'.join([re.escape(x) for x in sorted_translation]),
+                cls.ReferenceNotFollowedBy))
+        else:
+            expression = None
+
         def translation_func(string):
             # type: (str) -> str
-            for original in sorted_translation:
-                string = string.replace(original, translation[original])
-
-            return string
+            if expression is None:
+                return string
+            return expression.sub(lambda m: translation[m.group(1)], string)
 
         component = cls.replace_strings(component, translation_func, in_place=True)
 
